@@ -47,9 +47,18 @@ CanStart == \E w \in W : ws[w].status = "idle"
 CanMove  == \E w \in W : ws[w].status = "active" /\ (ws[w].outbox # <<>> \/ ws[w].pos < writePos)
 
 (* weighted choice of the action class (simulation mode only) *)
+(* transport faults and long pauses (only meaningful for the remote watch driver, C13) *)
+StartedWs == {w \in W : ws[w].status # "idle"}
+GFault == /\ StartedWs # {} /\ UNCHANGED vars
+          /\ Rec(Cmd("fault", RandomElement(StartedWs), "", 0, FALSE, "", RandomElement({0, 0, 1, 2}), 0, "", FALSE, TRUE))
+GWait == UNCHANGED vars /\ Rec(Cmd("wait", 0, "", 0, FALSE, "", 0, RandomElement({1, 1, 1200}), "", FALSE, TRUE))
+Faults == IF "GEN_FAULTS" \in DOMAIN IOEnv THEN IOEnv.GEN_FAULTS = "1" ELSE FALSE
+
 ModelNext ==
-  \E coin \in {RandomElement(1..8)} :
-     IF coin <= 3 THEN Pubs
+  \E coin \in {RandomElement(1..(IF Faults THEN 10 ELSE 8))} :
+     IF coin = 9 THEN (IF StartedWs # {} THEN GFault ELSE Pubs)
+     ELSE IF coin = 10 THEN GWait
+     ELSE IF coin <= 3 THEN Pubs
      ELSE IF coin <= 5 THEN (IF CanStart THEN Starts ELSE Pubs)
      ELSE (IF CanMove THEN Moves ELSE Pubs)
 
